@@ -5,6 +5,8 @@ import SqlObjVerif.Lemmas.CacheXList
 import SqlObjVerif.Lemmas.GetXInv
 import SqlObjVerif.Lemmas.GetXTx
 import SqlObjVerif.Lemmas.GetXExpireAll
+import SqlObjVerif.Lemmas.GetXOrder
+import SqlObjVerif.Lemmas.GetXMeta
 /-!
 # C04 — identity map: one live instance per row per connection on every access path
 
@@ -607,6 +609,36 @@ theorem C04_translated_connection_expireAll_eq_model (w : GW) (hwf : w.WF) (hl :
       .ret { W1 with s := items.foldl expireOne W1.s, dirty := items.foldl (fun d h => upd d h false) w.dirty } .none :=
   connExpireAllG_eq w hwf hl hwl hr hnc
 
+open SqlObjVerif.PyGet in
+/-- `connection.expireAll()` = the hand model's `expireAll` STEP ITSELF: the translated code expires the instances
+    `cache.getAll()` lists in dict order, the model in handle order; `expire()` of a set of instances does not depend on
+    the order (`foldl_expireOne_eq`: both folds are `expSet`), and the two lists have the same members (`getAll_mem_iff`) -/
+theorem C04_translated_connection_expireAll_eq_model_step (w : GW) (hg : GInv w) (hr : NoRel w.s)
+    (hf : ∀ h, w.falsy h = false) :
+    connExpireAllG w = .ret { w with s := (step w.s .expireAll).1 } .none :=
+  connExpireAllG_model w hg hr hf
+
+/-- `expire()` of the same instances in any order, any number of times, ends in the same state -/
+theorem C04_expire_order_irrelevant (s : State) (l1 l2 : List Handle) (h : ∀ x, x ∈ l1 ↔ x ∈ l2) :
+    l1.foldl expireOne s = l2.foldl expireOne s := by
+  rw [foldl_expireOne_eq, foldl_expireOne_eq, expSet_congr s l1 l2 h]
+
+open SqlObjVerif.PyGet in
+/-- `cls.sqlmeta.expireAll(connection)`: `cache.weakrefAll(cls)` = that class's `CacheFactory.expireAll()` (`weakrefOne`;
+    nothing for a class without a factory), then `item.expire()` = the model's `expireOne` for every instance
+    `cache.getAll(cls)` lists.  `hcls` is the "class of a cached object" hypothesis, stated explicitly: what class `c`'s
+    factory refers to is an instance of class `c` (a clause of the invariant `CInv`) -/
+theorem C04_translated_meta_expireAll_eq_model (w : GW) (c : Cls) (conn : Val) (hconn : conn = .none ∨ conn = Vconn)
+    (hwf : w.WF) (hl : w.lock c = false) (hwl : ∀ h, w.wlock h = false)
+    (hrel : ∀ e ∈ (w.s.fac c).strong, relOf w.s e.2 = false)
+    (hnc : w.s.cfg.doCache = false → (w.s.fac c).strong = [])
+    (hcls : ∀ e, Ent w.s c e → (w.s.obj e.2).cls = c) :
+    metaExpireAllG w c conn =
+      let W1 : GW := if c ∈ w.made then { w with s := weakrefOne w.s c } else w
+      let items := if c ∈ w.made then facObjs W1 c else []
+      .ret { W1 with s := items.foldl expireOne W1.s, dirty := items.foldl (fun d h => upd d h false) w.dirty } .none :=
+  metaExpireAllG_eq w c conn hconn hwf hl hwl hrel hnc hcls
+
 /-! ### the headline theorems, about the translated source
 
 `GInv w`: the model state inside world `w` satisfies the identity invariant `CInv` and `DictInv`, `CacheSet.caches`
@@ -835,5 +867,68 @@ theorem C04_translated_setstate_deleted_row_full_FALSE :
   rw [ht] at hm
   have := H w0 0 1 false hg _ hm
   simp [w0, init, alloc, insertEntry_rows, tick_rows] at this
+
+
+/-- the world after `create` of one row of class 0: its instance (handle 0) held and cached -/
+def wExp : GW := { s := run (init (Cfg.default true)) [.create 0 none], made := [0], lock := fun _ => false,
+                   wlock := fun _ => false, dirty := fun _ => false, falsy := fun _ => false, lazyCols := false, cursor := [] }
+
+theorem C04_translated_witness_world_inv : GInv wExp := by
+  have hs : Safe (init (Cfg.default true)) [.create 0 none] = true := by decide
+  refine ⟨C04_inv_reachable _ _ (inv_init _) hs, dictInv_run (dictInv_init _) _, ?_, fun _ => rfl, fun _ => rfl,
+    fun _ => rfl, by decide⟩
+  intro c hc
+  have hc' : c ≠ 0 := by simpa [wExp] using hc
+  refine ⟨?_, rfl⟩
+  have e : wExp.s = insertEntry (tick (alloc { init (Cfg.default true) with rows := upd (fun _ => []) 0 [1], maxId := upd (fun _ => 0) 0 1 } 0 1 false) 0) 0 1 0 := rfl
+  rw [e, ((local_tick _ 0).trans (local_insert _ 0 1 0)).fac c hc']
+  rfl
+
+open SqlObjVerif.PyGet in
+/-- the open finding "C04:expire-then-get" on the translated source: after the translated `inst.expire()` on a held,
+    live instance the translated `get` of its row builds a SECOND instance (witness: create, expire, get) -/
+theorem C04_translated_expire_then_get_full_FALSE :
+    ¬ ∀ (w : GW) (h0 : Handle), GInv w → usable w.s h0 = true → (w.s.obj h0).obsolete = false →
+      ∀ W1, expireG w h0 = .ret W1 .none →
+        ∀ W2 r, getG W1 (w.s.obj h0).cls (w.s.obj h0).id .none (Vsr false) = .ret W2 (.obj r) → r = h0 := by
+  intro H
+  have hg := C04_translated_witness_world_inv
+  have hu : usable wExp.s 0 = true := by decide
+  have ho : (wExp.s.obj 0).obsolete = false := by decide
+  have hn : (0 : Nat) < wExp.s.n := by decide
+  have hh : (wExp.s.obj 0).held = true := by decide
+  have e1 := expireG_model wExp 0 hu hg.wf (hg.lock _) (hg.wlock 0) (fun hd => hg.inv.nocache hd _)
+    (hrel_of_inv hg.inv hn hh ho)
+  have hc : (wExp.s.obj 0).cls = 0 := by decide
+  have hk : (wExp.s.obj 0).id = 1 := by decide
+  -- the world after the translated expire(): the invariant no longer holds, but `get`'s own hypotheses do
+  let W1 : GW := { wExp with s := (step wExp.s (.expire 0)).1, dirty := upd wExp.dirty 0 false }
+  have hd1 : DictInv W1.s := dictInv_step hg.dict (.expire 0)
+  have hfac : ∀ c, (W1.s.fac c).strong = [] ∧ (W1.s.fac c).weak = [] := by
+    intro c
+    show ((expireOne wExp.s 0).fac c).strong = [] ∧ ((expireOne wExp.s 0).fac c).weak = []
+    rw [expireOne_fac, hc, hk]
+    by_cases h0 : c = 0
+    · subst h0; simp only [if_true]; decide
+    · simp only [h0, if_false]; rw [(hg.wf c (by simpa [wExp] using h0)).1]; simp [emptyFactory]
+  have hrep : Rep W1.s 0 := ⟨(hd1 0).1, (hd1 0).2, by intro e he; rw [(hfac 0).1] at he; cases he⟩
+  have hwf1 : W1.WF := by
+    intro c hc'
+    have h0 : c ≠ 0 := by simpa [W1, wExp] using hc'
+    refine ⟨?_, rfl⟩
+    show (expireOne wExp.s 0).fac c = emptyFactory
+    rw [expireOne_fac, hc]; simp only [h0, if_false]
+    exact (hg.wf c (by simpa [wExp] using h0)).1
+  have hm := getG_model W1 0 1 .none (Or.inl rfl) false hwf1 rfl (fun _ => rfl)
+    (by intro h; show upd wExp.dirty 0 false h = false; simp [upd, wExp])
+    (by decide) hrep (fun _ => (hfac 0).1) (by simp)
+  have hres : (getObj W1.s 0 1 false).2 = some 1 := by decide
+  generalize hr : getObj W1.s 0 1 false = r at hm hres
+  obtain ⟨s', res⟩ := r
+  simp only at hres
+  subst hres
+  obtain ⟨W2, e2, _⟩ := hm
+  have := H wExp 0 hg hu ho W1 e1 W2 1 (by rw [hc, hk]; exact e2)
+  exact absurd this (by decide)
 
 end SqlObjVerif.Cache
